@@ -1,6 +1,8 @@
 import SqlcModel.Catalog.Model
 import SqlcModel.Spec.PgCatalog
 import SqlcModel.Lemmas.ListKey
+import SqlcModel.Lemmas.CatWF
+import SqlcModel.Lemmas.CatWFStep
 import SqlcModel.Gen.Untranslatable
 /-
 C08 — Catalog is the fold of the migration history (DDL semantics).
@@ -10,17 +12,9 @@ operations, `Cat.update`) to the PostgreSQL reference semantics (`Spec.Pg.step`,
 under the catalog well-formedness invariant (names unique per namespace), lifted to every finite
 history by induction.
 -/
+set_option linter.unusedSimpArgs false
 namespace Sqlc.C08
 open Sqlc.Cat Sqlc.Spec
-
-def WFTable (t : Table) : Prop := (t.cols.map (·.name)).Nodup
-def WFTy : Ty → Prop
-  | .enum _ vs _ => vs.Nodup
-  | .composite _ _ => True
-def WFSchema (s : Schema) : Prop :=
-  (s.tables.map (·.name)).Nodup ∧ (s.types.map Ty.name).Nodup ∧
-  (∀ t ∈ s.tables, WFTable t) ∧ (∀ t ∈ s.types, WFTy t)
-def WF (c : Catalog) : Prop := (c.schemas.map (·.name)).Nodup ∧ ∀ s ∈ c.schemas, WFSchema s
 
 theorem wf_init : WF initPg := by
   unfold WF initPg
@@ -92,6 +86,588 @@ theorem refines_createTable (c : Catalog) (q : QName) (g : Bool) (cols : List Co
     simp only [hasRel_eq, hasType_eq, modifySchema_eq c _ _ h, distinct_eq_not_dup, bind, Except.bind]
     cases h1 : s.findTable q.name <;> cases h2 : s.findType q.name <;>
       cases h3 : hasDupNames (cols.map (·.name)) <;> cases g <;> simp
+
+/-! ### table-level helpers -/
+
+theorem Schema.modifyTable_eq (s : Schema) (n : String) (f : Table → Table) (h : WFSchema s) :
+    s.modifyTable n f = Pg.mapRel s n f := by
+  unfold Schema.modifyTable Pg.mapRel
+  rw [modifyFirst_eq_map (fun t : Table => t.name) n f s.tables h.1]
+
+theorem Schema.modifyType_eq (s : Schema) (n : String) (f : Ty → Ty) (h : WFSchema s) :
+    s.modifyType n f = Pg.mapType s n f := by
+  unfold Schema.modifyType Pg.mapType
+  rw [modifyFirst_eq_map Ty.name n f s.types h.2.1]
+
+theorem modifyTable_eq (c : Catalog) (q : QName) (f : Table → Table) (h : WF c) :
+    modifyTable c q f = Pg.mapSchema c (ns c q) (fun s => Pg.mapRel s q.name f) := by
+  unfold modifyTable
+  rw [modifySchema_eq c _ _ h]
+  unfold Pg.mapSchema
+  congr 1
+  apply List.map_congr_left
+  intro s hs
+  by_cases hn : (s.name == ns c q) = true
+  · simp only [hn, if_true]; exact Schema.modifyTable_eq s q.name f (h.2 s hs)
+  · simp only [Bool.not_eq_true] at hn; simp [hn]
+
+theorem modifyType_eq (c : Catalog) (n tn : String) (f : Ty → Ty) (h : WF c) :
+    modifySchema c n (fun s => s.modifyType tn f) = Pg.mapSchema c n (fun s => Pg.mapType s tn f) := by
+  rw [modifySchema_eq c _ _ h]
+  unfold Pg.mapSchema
+  congr 1
+  apply List.map_congr_left
+  intro s hs
+  by_cases hn : (s.name == n) = true
+  · simp only [hn, if_true]; exact Schema.modifyType_eq s tn f (h.2 s hs)
+  · simp only [Bool.not_eq_true] at hn; simp [hn]
+
+theorem mem_of_findSchema (c : Catalog) (n : String) (s : Schema) (h : findSchema c n = some s) :
+    s ∈ c.schemas := List.mem_of_find?_eq_some h
+
+theorem mem_of_findTable (s : Schema) (n : String) (t : Table) (h : s.findTable n = some t) :
+    t ∈ s.tables := List.mem_of_find?_eq_some h
+
+/-- an update of "the table q" through map-if only depends on the function's value at the table that
+the lookups found -/
+theorem mapTable_congr (c : Catalog) (q : QName) (s : Schema) (t : Table) (g1 g2 : Table → Table)
+    (h : WF c) (hs : findSchema c (ns c q) = some s) (ht : s.findTable q.name = some t) (hg : g1 t = g2 t) :
+    Pg.mapSchema c (ns c q) (fun s => Pg.mapRel s q.name g1) =
+    Pg.mapSchema c (ns c q) (fun s => Pg.mapRel s q.name g2) := by
+  unfold Pg.mapSchema
+  congr 1
+  apply map_if_congr_found (fun s : Schema => s.name) (ns c q) _ _ c.schemas s h.1 hs
+  unfold Pg.mapRel
+  congr 1
+  exact map_if_congr_found (fun t : Table => t.name) q.name g1 g2 s.tables t
+    (h.2 s (mem_of_findSchema c _ s hs)).1 ht hg
+
+theorem hasCol_eq (t : Table) (n : String) : Pg.hasCol t n = (colIdx t n).isSome := by
+  unfold Pg.hasCol colIdx; rw [findIdx?_isSome_eq_any]
+
+theorem modifyCol_eq (t : Table) (col : String) (i : Nat) (f : Column → Column)
+    (h : WFTable t) (hi : colIdx t col = some i) : modifyCol t i f = Pg.mapCol t col f := by
+  unfold modifyCol Pg.mapCol
+  rw [modify_findIdx_eq_map (fun c : Column => c.name) col f t.cols i h hi]
+
+theorem refines_commentTable (c : Catalog) (q : QName) (text : Option String) (h : WF c) :
+    update c (.commentTable q text) = Pg.step c (.commentTable q text) := by
+  simp only [update, commentTable, Pg.step, getTable, ← findSchema_eq, bind, Except.bind]
+  cases hf : findSchema c (ns c q) with
+  | none => rfl
+  | some s =>
+    simp only [hasRel_eq]
+    cases ht : s.findTable q.name with
+    | none => simp
+    | some t => simp [modifyTable_eq c q _ h]
+
+theorem refines_renameTable (c : Catalog) (q : QName) (n : String) (h : WF c) :
+    update c (.renameTable q n) = Pg.step c (.renameTable q n) := by
+  simp only [update, renameTable, Pg.step, getTable, ← findSchema_eq, bind, Except.bind]
+  cases hf : findSchema c (ns c q) with
+  | none => rfl
+  | some s =>
+    simp only [hasRel_eq, hasType_eq]
+    cases ht : s.findTable q.name with
+    | none => simp
+    | some t =>
+      cases h1 : s.findTable n <;> cases h2 : s.findType n <;> simp [h1, h2, modifyTable_eq c q _ h]
+
+theorem refines_commentColumn (c : Catalog) (q : QName) (col : String) (text : Option String) (h : WF c) :
+    update c (.commentColumn q col text) = Pg.step c (.commentColumn q col text) := by
+  simp only [update, commentColumn, Pg.step, getTable, ← findSchema_eq, bind, Except.bind]
+  cases hf : findSchema c (ns c q) with
+  | none => rfl
+  | some s =>
+    cases ht : s.findTable q.name with
+    | none =>
+      have hrel : Pg.relOf s q.name = none := ht
+      simp [hrel, ht]
+    | some t =>
+      have hwt : WFTable t := (h.2 s (mem_of_findSchema c _ s hf)).2.2.1 t (mem_of_findTable s _ t ht)
+      have hrel : Pg.relOf s q.name = some t := ht
+      simp only [ht, hrel, hasCol_eq]
+      cases hi : colIdx t col with
+      | none => simp [hi]
+      | some i =>
+        simp only [hi, Option.isSome_some, if_true, modifyTable_eq c q _ h]
+        congr 1
+        exact mapTable_congr c q s t
+          (fun t => modifyCol t i (fun c => { c with comment := text.getD "" }))
+          (fun t => Pg.mapCol t col (fun c => { c with comment := text.getD "" }))
+          h hf ht (modifyCol_eq t col i _ hwt hi)
+
+theorem refines_renameColumn (c : Catalog) (q : QName) (col n : String) (h : WF c) :
+    update c (.renameColumn q col n) = Pg.step c (.renameColumn q col n) := by
+  simp only [update, renameColumn, Pg.step, getTable, ← findSchema_eq, bind, Except.bind]
+  cases hf : findSchema c (ns c q) with
+  | none => rfl
+  | some s =>
+    cases ht : s.findTable q.name with
+    | none =>
+      have hrel : Pg.relOf s q.name = none := ht
+      simp [hrel, ht]
+    | some t =>
+      have hwt : WFTable t := (h.2 s (mem_of_findSchema c _ s hf)).2.2.1 t (mem_of_findTable s _ t ht)
+      have hrel : Pg.relOf s q.name = some t := ht
+      have hlast : lastIdx? (fun c : Column => c.name == col) t.cols = colIdx t col :=
+        lastIdx_eq_findIdx (fun c : Column => c.name) col t.cols hwt
+      have hany : (t.cols.any fun x => x.name == n) = (colIdx t n).isSome := by
+        unfold colIdx; rw [findIdx?_isSome_eq_any]
+      simp only [ht, hrel, hasCol_eq, hlast, hany]
+      cases hn : (colIdx t n).isSome with
+      | true => simp [hn]
+      | false =>
+        cases hi : colIdx t col with
+        | none => simp [hi, hn]
+        | some i =>
+          simp only [hi, hn, Option.isSome_some, Bool.not_true, Bool.false_eq_true, if_false, modifyTable_eq c q _ h]
+          congr 1
+          exact mapTable_congr c q s t
+            (fun t => modifyCol t i (fun c => { c with name := n }))
+            (fun t => Pg.mapCol t col (fun c => { c with name := n }))
+            h hf ht (modifyCol_eq t col i _ hwt hi)
+
+/-! ### type-level statements -/
+
+theorem mem_of_findType (s : Schema) (n : String) (t : Ty) (h : s.findType n = some t) :
+    t ∈ s.types := List.mem_of_find?_eq_some h
+
+theorem mapType_congr (c : Catalog) (sn tn : String) (s : Schema) (t : Ty) (g1 g2 : Ty → Ty)
+    (h : WF c) (hs : findSchema c sn = some s) (ht : s.findType tn = some t) (hg : g1 t = g2 t) :
+    Pg.mapSchema c sn (fun s => Pg.mapType s tn g1) = Pg.mapSchema c sn (fun s => Pg.mapType s tn g2) := by
+  unfold Pg.mapSchema
+  congr 1
+  apply map_if_congr_found (fun s : Schema => s.name) sn _ _ c.schemas s h.1 hs
+  unfold Pg.mapType
+  congr 1
+  exact map_if_congr_found Ty.name tn g1 g2 s.types t
+    (h.2 s (mem_of_findSchema c _ s hs)).2.1 ht hg
+
+theorem refines_commentType (c : Catalog) (q : QName) (text : Option String) (h : WF c) :
+    update c (.commentType q text) = Pg.step c (.commentType q text) := by
+  simp only [update, commentType, Pg.step, getSchema, ← findSchema_eq, bind, Except.bind]
+  cases hf : findSchema c (ns c q) with
+  | none => rfl
+  | some s =>
+    simp only [hasType_eq]
+    cases ht : s.findType q.name with
+    | none => simp [ht]
+    | some t => simp [ht, modifyType_eq c _ _ _ h]
+
+theorem findType_name (s : Schema) (n : String) (t : Ty) (h : s.findType n = some t) : t.name = n := by
+  have := List.find?_some h
+  simpa using this
+
+theorem refines_addValue (c : Catalog) (q : QName) (val : String) (g : Bool) (pos : Option (Bool × String))
+    (h : WF c) : update c (.addValue q val g pos) = Pg.step c (.addValue q val g pos) := by
+  simp only [update, addValue, Pg.step, getSchema, ← findSchema_eq, bind, Except.bind]
+  cases hf : findSchema c (ns c q) with
+  | none => rfl
+  | some s =>
+    have htyp : Pg.typeOf s q.name = s.findType q.name := rfl
+    simp only [htyp]
+    cases ht : s.findType q.name with
+    | none => simp [ht]
+    | some t =>
+      cases t with
+      | composite n cm => simp [ht]
+      | enum n vals cm =>
+        simp only [ht]
+        cases hc : vals.contains val with
+        | true => simp [hc]
+        | false =>
+          simp only [hc, Bool.false_eq_true, if_false]
+          cases pos with
+          | none =>
+            simp only [modifyType_eq c _ _ _ h]
+            congr 1
+            apply mapType_congr c (ns c q) q.name s (.enum n vals cm) _ _ h hf ht
+            simp
+          | some p =>
+            obtain ⟨isAfter, nb⟩ := p
+            simp only []
+            cases hi : vals.findIdx? (· == nb) with
+            | none => simp [hi]
+            | some i =>
+              simp only [hi, Option.map_some, modifyType_eq c _ _ _ h]
+              congr 1
+
+theorem set_findIdx_eq_map : ∀ (l : List String) (old new : String) (i : Nat), l.Nodup →
+    l.findIdx? (· == old) = some i → l.set i new = l.map (fun v => if v == old then new else v)
+  | [], _, _, _, _, h => by simp at h
+  | a :: as, old, new, i, hnd, h => by
+    simp only [List.nodup_cons] at hnd
+    by_cases ha : (a == old) = true
+    · have hk : a = old := by simpa using ha
+      simp [List.findIdx?_cons, ha] at h
+      subst h
+      simp only [List.set_cons_zero, List.map_cons, ha, if_true]
+      congr 1
+      symm
+      rw [List.map_congr_left (g := id)]
+      · simp
+      · intro b hb
+        have : b ≠ old := by
+          intro hbo; rw [hbo, ← hk] at hb; exact hnd.1 hb
+        simp [this]
+    · simp only [Bool.not_eq_true] at ha
+      simp [List.findIdx?_cons, ha] at h
+      obtain ⟨j, hj, rfl⟩ := h
+      simp only [List.set_cons_succ, List.map_cons, ha]
+      rw [set_findIdx_eq_map as old new j hnd.2 hj]
+      simp
+
+theorem contains_eq_findIdx (l : List String) (v : String) : l.contains v = (l.findIdx? (· == v)).isSome := by
+  rw [findIdx?_isSome_eq_any, List.any_beq']
+
+theorem refines_renameValue (c : Catalog) (q : QName) (old new : String) (h : WF c) :
+    update c (.renameValue q old new) = Pg.step c (.renameValue q old new) := by
+  simp only [update, renameValue, Pg.step, getSchema, ← findSchema_eq, bind, Except.bind]
+  cases hf : findSchema c (ns c q) with
+  | none => rfl
+  | some s =>
+    have htyp : Pg.typeOf s q.name = s.findType q.name := rfl
+    simp only [htyp]
+    cases ht : s.findType q.name with
+    | none => simp [ht]
+    | some t =>
+      cases t with
+      | composite n cm => simp [ht]
+      | enum n vals cm =>
+        have hwf : vals.Nodup := (h.2 s (mem_of_findSchema c _ s hf)).2.2.2 _ (mem_of_findType s _ _ ht)
+        have hlast : lastIdx? (· == old) vals = vals.findIdx? (· == old) :=
+          lastIdx_eq_findIdx (fun v : String => v) old vals (by simpa using hwf)
+        simp only [ht, hlast, contains_eq_findIdx vals old]
+        cases hi : vals.findIdx? (· == old) with
+        | none => simp [hi]
+        | some i =>
+          simp only [hi, Option.isSome_some, Bool.not_true, Bool.false_eq_true, if_false]
+          cases hc : vals.contains new with
+          | true => simp [hc]
+          | false =>
+            simp only [hc, Bool.false_eq_true, if_false, modifyType_eq c _ _ _ h]
+            congr 1
+            apply mapType_congr c (ns c q) q.name s (.enum n vals cm) _ _ h hf ht
+            simp only []
+            rw [set_findIdx_eq_map vals old new i hwf hi]
+
+/-! ### multi-object DROP statements (loops) -/
+
+theorem refines_dropSchema_aux (g : Bool) : ∀ (names : List String) (c : Catalog), WF c →
+    dropSchema c names g = names.foldlM (Pg.dropSchemaStep g) c
+  | [], c, _ => rfl
+  | n :: rest, c, h => by
+    simp only [dropSchema, List.foldlM_cons, Pg.dropSchemaStep]
+    rw [lastIdx_eq_findIdx (fun s : Schema => s.name) n c.schemas h.1]
+    have hany : Pg.hasSchema c n = (c.schemas.findIdx? (fun s => s.name == n)).isSome := by
+      unfold Pg.hasSchema; rw [findIdx?_isSome_eq_any]
+    rw [hany]
+    cases hi : c.schemas.findIdx? (fun s => s.name == n) with
+    | none =>
+      cases g with
+      | true => simp [bind, Except.bind]; exact refines_dropSchema_aux true rest c h
+      | false => simp [bind, Except.bind]
+    | some i =>
+      have hf := eraseIdx_findIdx_eq_filter (fun s : Schema => s.name) n c.schemas i h.1 hi
+      simp only [Option.isSome_some, if_true, bind, Except.bind, hf]
+      exact refines_dropSchema_aux g rest _ (wf_filter_schemas c _ h)
+
+theorem refines_dropSchema (c : Catalog) (names : List String) (g : Bool) (h : WF c) :
+    update c (.dropSchema names g) = Pg.step c (.dropSchema names g) := by
+  simp only [update, Pg.step]; exact refines_dropSchema_aux g names c h
+
+theorem wfSchema_filter_tables (s : Schema) (p : Table → Bool) (h : WFSchema s) :
+    WFSchema { s with tables := s.tables.filter p } :=
+  ⟨nodup_filter_keys _ p s.tables h.1, h.2.1, fun t ht => h.2.2.1 t (List.mem_filter.mp ht).1, h.2.2.2⟩
+
+theorem wfSchema_filter_types (s : Schema) (p : Ty → Bool) (h : WFSchema s) :
+    WFSchema { s with types := s.types.filter p } :=
+  ⟨h.1, nodup_filter_keys _ p s.types h.2.1, h.2.2.1, fun t ht => h.2.2.2 t (List.mem_filter.mp ht).1⟩
+
+theorem tableIdx_isSome (s : Schema) (n : String) : (s.tableIdx n).isSome = Pg.hasRel s n := by
+  unfold Schema.tableIdx Pg.hasRel; rw [findIdx?_isSome_eq_any]
+
+theorem typeIdx_isSome (s : Schema) (n : String) : (s.typeIdx n).isSome = Pg.hasType s n := by
+  unfold Schema.typeIdx Pg.hasType; rw [findIdx?_isSome_eq_any]
+
+/-- erasing the found table of the found schema = filtering by name in every schema of that name -/
+theorem erase_table_eq (c : Catalog) (sn tn : String) (s : Schema) (i : Nat) (h : WF c)
+    (hs : findSchema c sn = some s) (hi : s.tableIdx tn = some i) :
+    modifySchema c sn (fun s' => { s' with tables := s'.tables.eraseIdx i }) =
+    Pg.mapSchema c sn (fun s' => { s' with tables := s'.tables.filter (·.name != tn) }) := by
+  rw [modifySchema_eq c _ _ h]
+  unfold Pg.mapSchema
+  congr 1
+  apply map_if_congr_found (fun s : Schema => s.name) sn _ _ c.schemas s h.1 hs
+  rw [eraseIdx_findIdx_eq_filter (fun t : Table => t.name) tn s.tables i
+    (h.2 s (mem_of_findSchema c _ s hs)).1 hi]
+
+theorem erase_type_eq (c : Catalog) (sn tn : String) (s : Schema) (i : Nat) (h : WF c)
+    (hs : findSchema c sn = some s) (hi : s.typeIdx tn = some i) :
+    modifySchema c sn (fun s' => { s' with types := s'.types.eraseIdx i }) =
+    Pg.mapSchema c sn (fun s' => { s' with types := s'.types.filter (·.name != tn) }) := by
+  rw [modifySchema_eq c _ _ h]
+  unfold Pg.mapSchema
+  congr 1
+  apply map_if_congr_found (fun s : Schema => s.name) sn _ _ c.schemas s h.1 hs
+  rw [eraseIdx_findIdx_eq_filter Ty.name tn s.types i
+    (h.2 s (mem_of_findSchema c _ s hs)).2.1 hi]
+
+theorem wf_filter_tables (c : Catalog) (sn tn : String) (h : WF c) :
+    WF (Pg.mapSchema c sn (fun s' => { s' with tables := s'.tables.filter (·.name != tn) })) :=
+  wf_mapSchema c sn _ h (fun s hs _ => ⟨rfl, wfSchema_filter_tables s _ (h.2 s hs)⟩)
+
+theorem wf_filter_types (c : Catalog) (sn tn : String) (h : WF c) :
+    WF (Pg.mapSchema c sn (fun s' => { s' with types := s'.types.filter (·.name != tn) })) :=
+  wf_mapSchema c sn _ h (fun s hs _ => ⟨rfl, wfSchema_filter_types s _ (h.2 s hs)⟩)
+
+theorem refines_dropTable_aux (g : Bool) : ∀ (rels : List QName) (c : Catalog), WF c →
+    dropTable c rels g = rels.foldlM (Pg.dropTableStep g) c
+  | [], c, _ => rfl
+  | q :: rest, c, h => by
+    simp only [dropTable, List.foldlM_cons, Pg.dropTableStep, ← findSchema_eq]
+    cases hs : findSchema c (ns c q) with
+    | none =>
+      cases g with
+      | true => simp [bind, Except.bind]; exact refines_dropTable_aux true rest c h
+      | false => simp [bind, Except.bind]
+    | some s =>
+      simp only [← tableIdx_isSome]
+      cases hi : s.tableIdx q.name with
+      | none =>
+        cases g with
+        | true => simp [bind, Except.bind]; exact refines_dropTable_aux true rest c h
+        | false => simp [bind, Except.bind]
+      | some i =>
+        simp only [Option.isSome_some, if_true, bind, Except.bind, erase_table_eq c _ _ s i h hs hi]
+        exact refines_dropTable_aux g rest _ (wf_filter_tables c _ _ h)
+
+theorem refines_dropTable (c : Catalog) (rels : List QName) (g : Bool) (h : WF c) :
+    update c (.dropTable rels g) = Pg.step c (.dropTable rels g) := by
+  simp only [update, Pg.step]; exact refines_dropTable_aux g rels c h
+
+theorem refines_dropType_aux (g : Bool) : ∀ (tys : List QName) (c : Catalog), WF c →
+    dropType c tys g = tys.foldlM (Pg.dropTypeStep g) c
+  | [], c, _ => rfl
+  | q :: rest, c, h => by
+    simp only [dropType, List.foldlM_cons, Pg.dropTypeStep, ← findSchema_eq]
+    cases hs : findSchema c (ns c q) with
+    | none =>
+      cases g with
+      | true => simp [bind, Except.bind]; exact refines_dropType_aux true rest c h
+      | false => simp [bind, Except.bind]
+    | some s =>
+      simp only [← typeIdx_isSome]
+      cases hi : s.typeIdx q.name with
+      | none =>
+        cases g with
+        | true => simp [bind, Except.bind]; exact refines_dropType_aux true rest c h
+        | false => simp [bind, Except.bind]
+      | some i =>
+        simp only [Option.isSome_some, if_true, bind, Except.bind, erase_type_eq c _ _ s i h hs hi]
+        exact refines_dropType_aux g rest _ (wf_filter_types c _ _ h)
+
+theorem refines_dropType (c : Catalog) (tys : List QName) (g : Bool) (h : WF c) :
+    update c (.dropType tys g) = Pg.step c (.dropType tys g) := by
+  simp only [update, Pg.step]; exact refines_dropType_aux g tys c h
+
+/-! ### ALTER TABLE (command list) -/
+
+theorem wfTable_alterCmd (t t' : Table) (cmd : AlterCmd) (h : WFTable t) (hr : Pg.alterCmd t cmd = .ok t') :
+    WFTable t' := by
+  cases cmd with
+  | add d g =>
+    simp only [Pg.alterCmd] at hr
+    cases hc : Pg.hasCol t d.name with
+    | true => cases g <;> simp [hc] at hr; subst hr; exact h
+    | false =>
+      simp [hc] at hr; subst hr
+      exact nodup_append_fresh (fun c : Column => c.name) t.cols (mkColumn d) h (by simpa [Pg.hasCol, mkColumn] using hc)
+  | drop col g =>
+    simp only [Pg.alterCmd] at hr
+    cases hc : Pg.hasCol t col with
+    | true => simp [hc] at hr; subst hr; exact nodup_filter_keys _ _ t.cols h
+    | false => cases g <;> simp [hc] at hr; subst hr; exact h
+  | setType col ts tn arr =>
+    simp only [Pg.alterCmd] at hr
+    cases hc : Pg.hasCol t col with
+    | false => simp [hc] at hr
+    | true =>
+      simp [hc] at hr; subst hr
+      unfold WFTable Pg.mapCol
+      rw [map_keys_preserved (fun c : Column => c.name)]
+      · exact h
+      · intro a _; by_cases hn : (a.name == col) = true <;> simp [hn]
+  | setNotNull col =>
+    simp only [Pg.alterCmd] at hr
+    cases hc : Pg.hasCol t col with
+    | false => simp [hc] at hr
+    | true =>
+      simp [hc] at hr; subst hr
+      unfold WFTable Pg.mapCol
+      rw [map_keys_preserved (fun c : Column => c.name)]
+      · exact h
+      · intro a _; by_cases hn : (a.name == col) = true <;> simp [hn]
+  | dropNotNull col =>
+    simp only [Pg.alterCmd] at hr
+    cases hc : Pg.hasCol t col with
+    | false => simp [hc] at hr
+    | true =>
+      simp [hc] at hr; subst hr
+      unfold WFTable Pg.mapCol
+      rw [map_keys_preserved (fun c : Column => c.name)]
+      · exact h
+      · intro a _; by_cases hn : (a.name == col) = true <;> simp [hn]
+
+theorem refines_alterCmd (t : Table) (cmd : AlterCmd) (h : WFTable t) :
+    Cat.alterCmd t cmd = Pg.alterCmd t cmd := by
+  cases cmd with
+  | add d g => simp [Cat.alterCmd, Pg.alterCmd, Pg.hasCol]
+  | drop col g =>
+    simp only [Cat.alterCmd, Pg.alterCmd, hasCol_eq]
+    cases hi : colIdx t col with
+    | none => simp
+    | some i =>
+      simp only [Option.isSome_some, if_true]
+      rw [eraseIdx_findIdx_eq_filter (fun c : Column => c.name) col t.cols i h hi]
+  | setType col ts tn arr =>
+    simp only [Cat.alterCmd, Pg.alterCmd, hasCol_eq]
+    cases hi : colIdx t col with
+    | none => simp
+    | some i => simp only [Option.isSome_some, if_true, modifyCol_eq t col i _ h hi]
+  | setNotNull col =>
+    simp only [Cat.alterCmd, Pg.alterCmd, hasCol_eq]
+    cases hi : colIdx t col with
+    | none => simp
+    | some i => simp only [Option.isSome_some, if_true, modifyCol_eq t col i _ h hi]
+  | dropNotNull col =>
+    simp only [Cat.alterCmd, Pg.alterCmd, hasCol_eq]
+    cases hi : colIdx t col with
+    | none => simp
+    | some i => simp only [Option.isSome_some, if_true, modifyCol_eq t col i _ h hi]
+
+theorem refines_alterCmds : ∀ (cmds : List AlterCmd) (t : Table), WFTable t →
+    alterCmds t cmds = cmds.foldlM Pg.alterCmd t
+  | [], _, _ => rfl
+  | cmd :: rest, t, h => by
+    simp only [alterCmds, List.foldlM_cons, refines_alterCmd t cmd h, bind, Except.bind]
+    cases hr : Pg.alterCmd t cmd with
+    | error e => rfl
+    | ok t' => exact refines_alterCmds rest t' (wfTable_alterCmd t t' cmd h hr)
+
+theorem refines_alterTable (c : Catalog) (q : QName) (cmds : List AlterCmd) (h : WF c) :
+    update c (.alterTable q cmds) = Pg.step c (.alterTable q cmds) := by
+  simp only [update, alterTable, Pg.step]
+  cases hcm : cmds.isEmpty with
+  | true => simp
+  | false =>
+    simp only [Bool.false_eq_true, if_false, getTable, ← findSchema_eq, bind, Except.bind]
+    cases hf : findSchema c (ns c q) with
+    | none => rfl
+    | some s =>
+      cases ht : s.findTable q.name with
+      | none =>
+        have hrel : Pg.relOf s q.name = none := ht
+        simp [hrel, ht]
+      | some t =>
+        have hwt : WFTable t := (h.2 s (mem_of_findSchema c _ s hf)).2.2.1 t (mem_of_findTable s _ t ht)
+        have hrel : Pg.relOf s q.name = some t := ht
+        simp only [ht, hrel, refines_alterCmds cmds t hwt]
+        cases hr : cmds.foldlM Pg.alterCmd t with
+        | error e => rfl
+        | ok t' => simp [Except.map, modifyTable_eq c q _ h]
+
+/-! ### ALTER TABLE ... SET SCHEMA -/
+
+theorem findTable_tableIdx (s : Schema) (n : String) :
+    (s.findTable n).isSome = (s.tableIdx n).isSome := by
+  unfold Schema.findTable Schema.tableIdx
+  rw [find?_isSome_eq_any, findIdx?_isSome_eq_any]
+
+theorem refines_setSchema (c : Catalog) (q : QName) (n : String) (h : WF c) :
+    update c (.setSchema q n) = Pg.step c (.setSchema q n) := by
+  simp only [update, setSchema, Pg.step, getSchema, ← findSchema_eq, bind, Except.bind]
+  cases hf : findSchema c (ns c q) with
+  | none => rfl
+  | some s =>
+    have hrel : Pg.relOf s q.name = s.findTable q.name := rfl
+    simp only [hrel]
+    have hcons := findTable_tableIdx s q.name
+    cases ht : s.findTable q.name with
+    | none =>
+      cases hi : s.tableIdx q.name <;> simp
+    | some t =>
+      cases hi : s.tableIdx q.name with
+      | none => rw [ht, hi] at hcons; simp at hcons
+      | some i =>
+        simp only []
+        cases hf2 : findSchema c n with
+        | none => rfl
+        | some s2 =>
+          simp only [hasRel_eq, hasType_eq]
+          cases h1 : s2.findTable q.name <;> cases h2 : s2.findType q.name <;> simp [h1, h2]
+          rw [erase_table_eq c _ _ s i h hf hi]
+          rw [modifySchema_eq _ _ _ (wf_filter_tables c _ _ h)]
+
+/-! ### every statement kind refines -/
+
+theorem refines (c : Catalog) (op : DDL) (h : WF c) : update c op = Pg.step c op := by
+  cases op with
+  | createSchema n g => exact refines_createSchema c n g
+  | dropSchema ns g => exact refines_dropSchema c ns g h
+  | createTable q g cols => exact refines_createTable c q g cols h
+  | dropTable qs g => exact refines_dropTable c qs g h
+  | renameTable q n => exact refines_renameTable c q n h
+  | setSchema q n => exact refines_setSchema c q n h
+  | alterTable q cmds => exact refines_alterTable c q cmds h
+  | renameColumn q a b => exact refines_renameColumn c q a b h
+  | createEnum q vs => exact refines_createEnum c q vs h
+  | createComposite q => exact refines_createComposite c q h
+  | addValue q v g p => exact refines_addValue c q v g p h
+  | renameValue q a b => exact refines_renameValue c q a b h
+  | dropType qs g => exact refines_dropType c qs g h
+  | commentSchema n t => exact refines_commentSchema c n t h
+  | commentTable q t => exact refines_commentTable c q t h
+  | commentColumn q col t => exact refines_commentColumn c q col t h
+  | commentType q t => exact refines_commentType c q t h
+
+/-! ### the property: every finite history -/
+
+/-- C08 (full strength on the modelled statement subset): for EVERY finite DDL history, starting from
+the initial PostgreSQL catalog, the handler model yields exactly the catalog — or rejects at exactly
+the statement and with the error class — that the PostgreSQL reference semantics yields. -/
+theorem C08_history_refines : ∀ (ops : List DDL) (c : Catalog), WF c → Cat.run c ops = Pg.run c ops
+  | [], _, _ => rfl
+  | op :: rest, c, h => by
+    simp only [Cat.run, Pg.run, refines c op h, bind, Except.bind]
+    cases hr : Pg.step c op with
+    | error e => rfl
+    | ok c' => exact C08_history_refines rest c' (wf_step c c' op h hr)
+
+theorem C08 (ops : List DDL) : Cat.run initPg ops = Pg.run initPg ops :=
+  C08_history_refines ops initPg wf_init
+
+/-- and every catalog reached is well formed (names unique per namespace) -/
+theorem C08_reachable_wf : ∀ (ops : List DDL) (c c' : Catalog), WF c → Pg.run c ops = .ok c' → WF c'
+  | [], c, c', h, hr => by simp [Pg.run] at hr; subst hr; exact h
+  | op :: rest, c, c', h, hr => by
+    simp only [Pg.run, bind, Except.bind] at hr
+    cases h1 : Pg.step c op with
+    | error e => simp [h1] at hr
+    | ok c1 => simp only [h1] at hr; exact C08_reachable_wf rest c1 c' (wf_step c c1 op h h1) hr
+
+/-- non-vacuity: a concrete non-trivial history runs to a catalog in both semantics -/
+def exHistory : List DDL := [
+  .createSchema "s1" true, .createSchema "s1" true,
+  .createEnum ⟨"", "e1"⟩ ["x", "y"],
+  .createTable ⟨"", "t1"⟩ false [⟨"a", "pg_catalog", "int4", false, true⟩, ⟨"b", "", "e1", false, false⟩],
+  .alterTable ⟨"", "t1"⟩ [.drop "a" false, .add ⟨"c", "", "text", true, false⟩ true, .setNotNull "b"],
+  .addValue ⟨"", "e1"⟩ "z" false (some (false, "y")),
+  .renameTable ⟨"", "t1"⟩ "t2", .setSchema ⟨"", "t2"⟩ "s1",
+  .dropSchema ["s1"] false, .createSchema "s1" false]
+
+example : (match Cat.run initPg exHistory with | .ok c => c.schemas.length | .error _ => 0) = 3 := by decide
 
 theorem translator_complete : Gen.untranslatable = [] := by decide
 
